@@ -73,6 +73,11 @@ func main() {
 	// one more shared recipe that no call has touched before the goroutines start (its reference
 	// values come from a deep copy): an empty custom entry before non-empty ones, which is legal
 	charRecipes = append(charRecipes, &spg.CharRecipe{Length: 14, Allow: spg.Lowers, RequireSets: []string{"", "12", "CD", "34"}})
+	// a shared recipe with an EMPTY alphabet (everything allowed is excluded), first evaluated
+	// concurrently; and a wordlist recipe whose separator function is built from it
+	emptyRecipe := &spg.CharRecipe{Length: 5, Allow: spg.Digits, ExcludeChars: "0123456789"}
+	emptySepRecipe := spg.NewWLRecipe(3, wl)
+	emptySepRecipe.SeparatorFunc = spg.NewSFFunction(*emptyRecipe)
 	// reference values computed before any concurrency, on deep copies
 	alpha := make([]string, len(charRecipes))
 	ent := make([]float32, len(charRecipes))
@@ -100,8 +105,23 @@ func main() {
 					fail("panic in worker: %v", r)
 				}
 			}()
+			// NOTE: no shared atomic or lock inside the loop — the race detector treats those as
+			// synchronisation and they would order the workers' iterations, hiding races.
+			local := int64(0)
+			defer func() { atomic.AddInt64(&calls, local) }()
 			for time.Now().Before(deadline) {
-				atomic.AddInt64(&calls, 1)
+				local++
+				if lg.intn(64) == 0 {
+					// the impossible recipe: an error, never a password; the separator built from it is empty
+					if p, err := emptyRecipe.Generate(); err == nil || p != nil {
+						fail("empty-alphabet recipe returned a password")
+					}
+					_ = emptyRecipe.Entropy()
+					if p, err := emptySepRecipe.Generate(); err != nil || len(p.Tokens().Separators()) != 0 {
+						fail("wordlist recipe with an impossible separator recipe: %v", err)
+					}
+					continue
+				}
 				switch lg.intn(8) {
 				case 0, 1:
 					i := lg.intn(len(charRecipes))
